@@ -9,8 +9,13 @@ import (
 	"sync"
 	"time"
 
+	"github.com/pingcap/kvproto/pkg/pdpb"
+	"github.com/tikv/pd/pkg/grpcutil"
 	"github.com/tikv/pd/server/tso"
 	"go.etcd.io/etcd/clientv3"
+	"google.golang.org/grpc"
+	"google.golang.org/grpc/codes"
+	"google.golang.org/grpc/status"
 
 	"pdverif/internal/res"
 )
@@ -150,5 +155,131 @@ func (w *world) farResetProbe(R *res.Result) {
 				map[string]interface{}{"global": []int64{g.Physical, g.Logical}, "local": []int64{l.Physical, l.Logical}, "dc": dc, "gap_ms": gapMs})
 			return
 		}
+	}
+}
+
+// writeFault makes the next SyncMaxTS request of the write phase (SkipCheck set) fail before it is sent.
+type writeFault struct {
+	mu    sync.Mutex
+	armed bool
+	fired int
+}
+
+func (g *writeFault) intercept(ctx context.Context, method string, req, reply interface{}, cc *grpc.ClientConn, invoker grpc.UnaryInvoker, opts ...grpc.CallOption) error {
+	if r, ok := req.(*pdpb.SyncMaxTSRequest); ok && r.GetSkipCheck() {
+		g.mu.Lock()
+		a := g.armed
+		g.armed = false
+		if a {
+			g.fired++
+		}
+		g.mu.Unlock()
+		if a {
+			return status.Error(codes.Unavailable, "verif: injected SyncMaxTS failure")
+		}
+	}
+	return invoker(ctx, method, req, reply, cc, opts...)
+}
+
+// failedWriteProbe: the Local allocator of dc-2 is ahead of the Global estimate, so the first attempt of a Global
+// request collects the larger maximum and enters the write phase; that SyncMaxTS request is lost and the request
+// retries. Whatever the retry answers must still be greater than the Local timestamp handed out before the request
+// began: every attempt has to validate its own estimate.
+func (w *world) failedWriteProbe(R *res.Result) {
+	addr := w.s.GetConfig().AdvertiseClientUrls
+	f := &writeFault{}
+	ctx, cancel := context.WithTimeout(context.Background(), 3*time.Second)
+	conn, err := grpcutil.GetClientConn(ctx, addr, nil, grpc.WithUnaryInterceptor(f.intercept))
+	cancel()
+	if err != nil {
+		R.Notes = append(R.Notes, "failed-write probe skipped: "+err.Error())
+		return
+	}
+	w.am.VerifSetGRPCConn(addr, conn)
+	if _, err := w.am.HandleTSORequest(tso.GlobalDCLocation, 1); err != nil {
+		R.Notes = append(R.Notes, "failed-write probe skipped: no Global timestamp through the new connection: "+err.Error())
+		return
+	}
+	now := time.Now().UnixNano() / int64(time.Millisecond)
+	gp, _ := w.mem(-1)
+	if gp > now {
+		now = gp
+	}
+	if err := w.alloc(1).SetTSO(compose(now+5000, 0)); err != nil {
+		R.Notes = append(R.Notes, "failed-write probe skipped: "+err.Error())
+		return
+	}
+	l, err := w.am.HandleTSORequest(w.dcs[1], 1)
+	if err != nil {
+		return
+	}
+	f.mu.Lock()
+	f.armed = true
+	f.mu.Unlock()
+	g, gerr := w.am.HandleTSORequest(tso.GlobalDCLocation, 1)
+	w.lastG = time.Now()
+	f.mu.Lock()
+	fired := f.fired
+	f.armed = false
+	f.mu.Unlock()
+	if fired == 0 {
+		R.Notes = append(R.Notes, "failed-write probe: the request never reached its write phase")
+		return
+	}
+	R.Count("failed-write:probed")
+	if gerr != nil {
+		R.Count("failed-write:global-refused")
+		return
+	}
+	R.Count("failed-write:global-answered")
+	if g.Physical < l.Physical || (g.Physical == l.Physical && g.Logical <= l.Logical) {
+		R.Violate("C05:global-not-above-earlier-local:retry-after-failed-write-phase",
+			fmt.Sprintf("dc-2 answered (%d,%d); a Global request then collected that maximum, its write-phase SyncMaxTS request was lost, and the retry answered (%d,%d), which is not greater", l.Physical, l.Logical, g.Physical, g.Logical),
+			map[string]interface{}{"local": []int64{l.Physical, l.Logical}, "global": []int64{g.Physical, g.Logical}, "scenario": "SetTSO(dc-2, Global memory + 5 s); Local(dc-2); Global(1) with the first SkipCheck SyncMaxTS request failing (Unavailable)"})
+	}
+}
+
+// sameMillisecondWriteProbe: the write phase of a Global request (the real SyncMaxTS handler, SkipCheck set) delivers a
+// maximum (P, L) whose millisecond P is the one the Local allocator's clock-driven physical time (which carries a
+// sub-millisecond part) lies in, with L above the allocator's logical part. The member reports dc-1 as synchronised:
+// from then on every Local timestamp of dc-1 has to be greater than (P, L).
+func (w *world) sameMillisecondWriteProbe(R *res.Result) {
+	a := w.alloc(0)
+	p, init, l, _, _ := tso.VerifState(a)
+	if init && p%1e6 == 0 {
+		a.UpdateTSO()
+		p, init, l, _, _ = tso.VerifState(a)
+	}
+	if !init || p%1e6 == 0 {
+		R.Notes = append(R.Notes, "same-millisecond probe skipped: the physical time of dc-1 has no sub-millisecond part")
+		return
+	}
+	max := &pdpb.Timestamp{Physical: p / 1e6, Logical: l + 1000}
+	ctx, cancel := context.WithTimeout(context.Background(), 3*time.Second)
+	defer cancel()
+	resp, err := w.s.SyncMaxTS(ctx, &pdpb.SyncMaxTSRequest{Header: &pdpb.RequestHeader{ClusterId: w.s.ClusterID(), SenderId: w.s.GetMember().ID()}, MaxTs: max, SkipCheck: true})
+	if err != nil {
+		R.Notes = append(R.Notes, "same-millisecond probe: SyncMaxTS refused: "+err.Error())
+		return
+	}
+	synced := false
+	for _, dc := range resp.GetSyncedDcs() {
+		if dc == w.dcs[0] {
+			synced = true
+		}
+	}
+	R.Count("same-millisecond-write:probed")
+	if !synced {
+		return
+	}
+	t, err := w.am.HandleTSORequest(w.dcs[0], 1)
+	if err != nil {
+		return
+	}
+	raw := t.Logical >> t.SuffixBits
+	if t.Physical < max.Physical || (t.Physical == max.Physical && raw <= max.Logical) {
+		R.Violate("C05:local-not-above-earlier-global:write-back-dropped-in-the-same-millisecond",
+			fmt.Sprintf("the Local allocator of dc-1 stood at physical %d.%06d ms, logical %d; the write phase of a Global request delivered (%d,%d) and dc-1 was reported synchronised; the next Local timestamp of dc-1 is (physical %d, raw logical %d), not greater", p/1e6, p%1e6, l, max.Physical, max.Logical, t.Physical, raw),
+			map[string]interface{}{"memory_ns": p, "memory_logical": l, "written": []int64{max.Physical, max.Logical}, "local": []int64{t.Physical, raw}})
 	}
 }
